@@ -117,14 +117,17 @@ func c04(c *q.Ctx) {
 		c.FieldStore(tr, "LedgerMeta.TrunkHeight", "proto.Clone(p0.meta)", tgt+".Height", "trunk height becomes the target's height")
 		c.ArgIs(tr, "Ledger.removeBlocks", 1, "ledger.(*Ledger).GetBranchInfo(p0,"+tgt+".Blockid,"+tgt+".Height)#0[]", 1, "every branch tip above the target is cut")
 		c.ArgIs(tr, "Ledger.removeBlocks", 2, tgt+".Blockid", 1, "down to the target")
-		c.SameValueArgs(tr, map[string]int{"Ledger.removeBlocks": 3, "Ledger.updateBranchInfo": 4, "Ledger.saveBlock": 2, "Batch.Put": -1, "Batch.Write": -1}, "one batch per truncation including meta", "a truncation is atomic")
+		c.SameValueArgs(tr, map[string]int{"Ledger.removeBlocks": 3, "Ledger.updateBranchInfo": 4, "Batch.Put": -1, "Batch.Write": -1}, "one batch per truncation including meta", "a truncation is atomic")
 		c.Gate(tr, "Batch.Write", q.ToFieldStore("Ledger.meta"), q.Opt{})
 		c.Gate(tr, "Batch.Write", q.ToSuccess(), q.Opt{})
 		c.Gate(tr, "Ledger.removeBlocks", q.ToCall("Batch.Write"), q.Opt{K1Only: true})
 		c.Gate(tr, "Ledger.GetBranchInfo", q.ToCall("Batch.Write"), q.Opt{})
 		c.Effect(tr, q.Eff{Spec: "Batch.Put", Arg: 0, Glob: "\"M\"", Why: "meta staged in the truncation's batch", Rule: "K10"})
 		c.StoreIs(tr, "Ledger.meta", "proto.Clone(p0.meta)", 1, "the published meta is the one that was persisted")
-		c.FieldStore(tr, "InternalBlock.NextHash", tgt, "[]", "the block that becomes the tip has no successor on the trunk")
-		c.Effect(tr, q.Eff{Spec: "Ledger.saveBlock", Arg: 0, Glob: tgt, Why: "and that header edit is persisted in the truncation's batch", Rule: "K6"})
+		tip := "proto.Clone(" + tgt + ")"
+		c.FieldStore(tr, "InternalBlock.NextHash", tip, "[]", "the block that becomes the tip has no successor on the trunk")
+		c.Effect(tr, q.Eff{Spec: "Batch.Put", Arg: 0, Glob: "append(\"B\"," + tip + ".Blockid)", Why: "and that header is persisted in the truncation's batch", Rule: "K6"})
+		c.Effect(tr, q.Eff{Spec: "Batch.Put", Arg: 1, Glob: "proto.Marshal(" + tip + ")#0", Why: "", Rule: "K6"})
+		c.Gate(tr, "Batch.Write", q.ToCall("LRUCache.Add"), q.Opt{})
 	}
 }
